@@ -158,7 +158,11 @@ class SensitiveWordAnonymizer(object):
         sensitive_words_ = {w.lower() for w in sensitive_words if w}
 
         self.salt = salt
-        self.sens_regex = self._generate_sensitive_word_regex(sensitive_words_)
+        # The pattern ignores case itself; also give it the words as written, since
+        # lower-casing is not always undone by that (e.g. a word containing U+0130)
+        self.sens_regex = self._generate_sensitive_word_regex(
+            sensitive_words_ | {w for w in sensitive_words if w}
+        )
         self.sens_word_replacements = {}
         # Figure out which reserved words may clash with sensitive words, so they can be preserved in anonymization
         self.conflicting_words = self._generate_conflicting_reserved_word_list(
